@@ -684,7 +684,8 @@ def _run(world: World, plan):
                 timed.append((float(loss_plan.get('at', 0.0)), 1, 0, None))
         timed.sort(key=lambda x: x[:3])
         for (at, _, _, c) in timed:
-            if at > horizon:
+            # a call needs time to take effect before the run is judged (attempt timeout 10 s + slack)
+            if at > horizon - 40.0:
                 break
             await sleep_until(t0[0] + at)
             if c is None:
